@@ -120,3 +120,19 @@ P['C17'] = {
     'not_covered': ['directory / unwritable path states beyond "the open error is returned"', 'what the OS does with written-but-unsynced pages on power loss (no fsync in the code; the property only speaks of killing the process)'],
     'assumptions': ['open(2) shim: fails iff (create_new and exists) or (neither create nor create_new and absent); truncate empties; append positions at end', 'File::create == write+create+truncate', 'BufWriter shim as described', 'a serialised sample is 1..64 bytes; cap * 64 fits usize'],
 }
+
+P['C19'] = {
+    'units': ['syncx'],
+    'technique': 'Verus function contracts on the code the derive macro GENERATES: rustc prints the macro expansion of derive users of every arity (vx/expand.py), the generated work / eof / new / process_sync_tags are cut from it and verified against the stream contract; loop invariants on the (desugared) per-sample loop',
+    'level_text': 'Deductive proof, no bound on window lengths, tag counts or sample values, for eleven derive users covering 1..3 inputs x 1..3 outputs in sync mode (one of them stateful, with default / into / plain fields), two sync_tag users (one forwarding the tags of its SECOND input) and a new()-only user with a non-copy output: a call that returns Again took the same k >= 1 samples from every input and committed k to every output, k is exactly min(shortest input, smallest output space) (some stream is exhausted afterwards), output j sample i is process_sync of the inputs at i (for the stateful block: with the state after i earlier calls, so the kernel runs once per step, in order), the tags of the tag-source input reach every output exactly once on the same sample; WaitForStream names, with need 1, an input that is empty or an output that is full, and nothing moved; the generated assert_ne!s cannot fire; generated eof() is true only if every input has ended; generated new() stores the inputs it was given, pairs every output with a fresh stream and returns the read ends in declaration order, defaults / converts / stores the other fields.  The derive users must also COMPILE: a type error inside the derive expansion is reported as a violation with the failing program.',
+    'level_note': 'The verified text is rustc\'s pretty-printed expansion of the token stream rustradio_macros produced from /repo\'s current tree -- not the macro source, and not a transcription.  Trusted: the desugaring of the lazy iterator pipeline into a counted loop (rule X-SYNCLOOP, DESIGN.md section 4: take / zip / enumerate / izip! semantics), fold-min (X-XPAND), the tag-filter shim tags_at, ReadStream::eof and new_stream as specifications, the stream contract.  When the expansion no longer has the shape the rules know, the unit is undecided and the bounded harness bx/syncx_harness.rs (same blocks, same obligations, concrete schedules) stands in.',
+    'not_covered': ['arities above 3 x 3 (the generated code is uniform in the arity, but only 1..3 x 1..3 are instantiated)',
+                    'freshness of the streams new() creates is stated as "empty and well formed"; that two calls of new_stream() return different streams is not expressible without a global ghost counter',
+                    'the in-crate derive users (Tee, Add, ...): same generated text, see unit synclib where present; their kernels are under C10',
+                    'BlockName, custom_name, noeof / nevereof attribute combinations', 'the non-sync path of the macro generates nothing but new(), eof() and the name'],
+    'assumptions': ['X-SYNCLOOP: `let it = A.iter().take(n).zip(B.iter())..enumerate().map(|(pos, PAT)| BODY); for (S, O..) in izip!(it, O.slice().iter_mut()..) { (*O..) = S }` runs BODY for pos = 0, 1, .. min(n, A.len(), B.len().., O.len()..) - 1 in order, binding PAT to references to the pos-th elements and storing the result in the pos-th output slots',
+                    'ReadStream::eof() == "the writer is gone and the buffer is drained" (src/stream.rs, specification only here)',
+                    'new_stream() returns the two ends of one stream, empty and well formed',
+                    'the stream-API contract of units/stream_prelude.vx (its data and tag clauses are derived from the ring contracts in unit ring)'],
+    'back_ends': 'Verus 0.2026.09.13 / Z3 (vx) on rustc -Zunpretty=expanded output; bounded stand-in / replay: cargo test of bx/syncx_harness.rs',
+}
